@@ -5,7 +5,7 @@ PROPS = ["RefusedUnchanged", "IdNameStable", "NumbersNeverReused", "DeleteFrame"
          "CreatedAtFixed", "UpdatedMonotone", "TimestampLocality", "NoAutoNoChange", "ListedAttrStamps"]
 
 
-def cfg(name, names, vals, maxobj, depth, clock, limit, ops, faults, script, inv=INV, props=PROPS, export=True):
+def cfg(name, names, vals, maxobj, depth, clock, limit, ops, faults, script, inv=INV, props=PROPS, export=True, copykeep=()):
     s = ["SPECIFICATION Spec", "CONSTANTS",
          "  Names = {%s}" % ", ".join('"%s"' % n for n in names),
          "  Vals = {%s}" % ", ".join(str(v) for v in vals),
@@ -13,7 +13,7 @@ def cfg(name, names, vals, maxobj, depth, clock, limit, ops, faults, script, inv
          "  Limit <- %s" % limit,
          "  Ops = {%s}" % ", ".join('"%s"' % o for o in ops),
          "  Faults = {%s}" % ", ".join('"%s"' % f for f in faults),
-         "  Script <- %s" % script, "VIEW View"]
+         "  Script <- %s" % script, "  CopyKeep = {%s}" % ", ".join(copykeep), "VIEW View"]
     s += ["INVARIANT %s" % i for i in inv]
     s += ["PROPERTY %s" % p for p in props]
     if export:
@@ -24,6 +24,7 @@ def cfg(name, names, vals, maxobj, depth, clock, limit, ops, faults, script, inv
 
 ALLF = ["DuplicateName", "BadName", "NoneType", "WrongKind", "ForeignBlock", "NotMember", "Required", "NotFound"]
 N2 = ["n1", "n2"]
+N3 = ["n1", "n2", "n3"]
 # C03: create / delete histories over all containers
 cfg("MC_C03_quick.cfg", N2, [1], 4, 4, 1, "Limit_C03", ["create", "createfault", "delete"], ["DuplicateName", "BadName", "NotFound"], "NoScript")
 cfg("MC_C03.cfg", N2, [1], 5, 5, 1, "Limit_C03", ["create", "createfault", "delete"], ["DuplicateName", "BadName", "NotFound"], "NoScript")
@@ -55,4 +56,10 @@ cfg("MC_Sim.cfg", ["n1", "n2", "n3"], [1, 2], 16, 30, 4, "Limit_Sim", ["create",
 # sessions (C11 read-only, C17 kill): write histories for NixSession schedules
 cfg("MC_Sess_quick.cfg", ["n1"], [1, 2], 4, 4, 1, "Limit_C04", ["create", "attr", "data", "link", "delete"], [], "NoScript")
 cfg("MC_Sess_links_quick.cfg", N2, [1, 2], 14, 15, 1, "Limit_Links", ["create", "attr", "data", "link", "delete"], [], "Script_Links")
+# C20: copies after a scripted prefix (block with internal links), then mutations of either side
+C20P = ["RefusedUnchanged", "DeleteFrame", "CopyComplete", "CopyIndependent"]
+cfg("MC_C20_quick.cfg", N3, [1], 30, 18, 1, "Limit_Copy", ["create", "copy", "attr", "data", "delete", "link"], ["NameExists"], "Script_Copy", props=C20P, copykeep=["FALSE"])
+cfg("MC_C20.cfg", N3, [1], 30, 19, 1, "Limit_Copy", ["create", "copy", "attr", "data", "delete", "link"], ["NameExists"], "Script_Copy", props=C20P, copykeep=["FALSE"])
+cfg("MC_C20_mut.cfg", N3, [1, 2], 30, 20, 1, "Limit_Copy", ["create", "link", "copy", "attr", "data", "delete"], [], "Script_Copied", props=C20P, copykeep=["FALSE"])
+cfg("MC_C20_keep.cfg", N3, [1], 30, 18, 1, "Limit_Copy", ["create", "link", "copy", "attr", "data"], ["NameExists"], "Script_Copy", inv=[i for i in INV if i != "EidUnique"], props=C20P, copykeep=["TRUE"])
 print("ok")
